@@ -479,30 +479,32 @@ func runC12(p *core.Prog, r *core.Report) {
 		// ceil idiom of the stop block: x - x%k + k only under x%k != 0
 		fn := fns[0]
 		okCeil := false
-		core.Instrs(fn, func(in ssa.Instruction) {
-			add, ok := in.(*ssa.BinOp)
-			if !ok || add.Op != token.ADD {
-				return
-			}
-			sub, ok := add.X.(*ssa.BinOp)
-			if !ok || sub.Op != token.SUB {
-				return
-			}
-			rem, ok := sub.Y.(*ssa.BinOp)
-			if !ok || rem.Op != token.REM || !sameExpr(add.Y, rem.Y, 2) {
-				return
-			}
-			// guarded by rem != 0
-			for _, ref := range *rem.Referrers() {
-				if cmp, ok := ref.(*ssa.BinOp); ok && cmp.Op == token.NEQ && isZeroConst(cmp.Y) {
-					for _, rr := range *cmp.Referrers() {
-						if ifi, ok := rr.(*ssa.If); ok && ifi.Block().Succs[0] == add.Block() && len(add.Block().Preds) == 1 {
-							okCeil = true
+		for _, member := range core.Family(fn, 1) {
+			core.Instrs(member, func(in ssa.Instruction) {
+				add, ok := in.(*ssa.BinOp)
+				if !ok || add.Op != token.ADD {
+					return
+				}
+				sub, ok := add.X.(*ssa.BinOp)
+				if !ok || sub.Op != token.SUB {
+					return
+				}
+				rem, ok := sub.Y.(*ssa.BinOp)
+				if !ok || rem.Op != token.REM || !sameExpr(add.Y, rem.Y, 2) {
+					return
+				}
+				// guarded by rem != 0
+				for _, ref := range *rem.Referrers() {
+					if cmp, ok := ref.(*ssa.BinOp); ok && cmp.Op == token.NEQ && isZeroConst(cmp.Y) {
+						for _, rr := range *cmp.Referrers() {
+							if ifi, ok := rr.(*ssa.If); ok && ifi.Block().Succs[0] == add.Block() && len(add.Block().Preds) == 1 {
+								okCeil = true
+							}
 						}
 					}
 				}
-			}
-		})
+			})
+		}
 		r.Check(okCeil, "C12.R5", "computeLinearHandoffBlockNum/ceil", "rounding the stop block up adds the segment size only when the remainder is non-zero (ceil, not floor+size)", "guarded ceil idiom not found", p.Pos(fn.Pos()))
 	})
 	r.MinInstances("C12.R1", 4)
